@@ -1,5 +1,6 @@
 """C05 - LIS physical records: what is written is what is read, at any position (E2 search + E1 writer check)."""
 import io
+import os
 import itertools
 
 from mc import bfs
@@ -149,6 +150,20 @@ def check_two_writers():
     return []
 
 
+_PATHS = None
+
+
+def _scratch_paths():
+    global _PATHS
+    if _PATHS is None:
+        import atexit
+        from mc import seams
+        os.makedirs(seams.SCRATCH, exist_ok=True)
+        _PATHS = tuple(os.path.join(seams.SCRATCH, 'c05-%d-%s.lis' % (os.getpid(), w)) for w in ('in', 'out'))
+        atexit.register(lambda: [os.remove(p) for p in _PATHS if os.path.exists(p)])
+    return _PATHS
+
+
 def check_strip(cfg):
     from TotalDepth import DeTif
     with_tif, _lay, _ = ref_file(dict(cfg, tif='normal'))
@@ -174,6 +189,26 @@ def check_strip(cfg):
     if nbytes != len(without) or n != nprs + 2:
         bad.append(({'kind': 'strip_tif_counts'}, 'strip_tif returned (%d markers, %d bytes); file has %d markers incl. 2 EOF, %d bytes'
                     % (n, nbytes, nprs + 2, len(without))))
+    # the tool's entry point, by path: the input path held the unmarked file a moment ago (it is not TIF-marked, and left alone),
+    # now it holds the marked file, which is stripped into the output path over what an earlier call left there
+    pin, pout = _scratch_paths()
+    try:
+        with open(pin, 'wb') as f:
+            f.write(without)
+        if os.path.exists(pout):
+            os.remove(pout)
+        r0 = DeTif.de_tif_file(pin, pout, False, True)
+        if r0[0] != 0 or os.path.exists(pout):
+            bad.append(({'kind': 'de_tif_file_unmarked'}, 'de_tif_file() of the unmarked file returns %r, output written: %r' % (r0, os.path.exists(pout))))
+        with open(pin, 'wb') as f:
+            f.write(with_tif)
+        r1 = DeTif.de_tif_file(pin, pout, False, True)
+        stripped = open(pout, 'rb').read() if os.path.exists(pout) else None
+        if stripped != without or tuple(r1) != (1, nprs + 2, len(without)):
+            bad.append(({'kind': 'de_tif_file'}, 'de_tif_file() of the marked file written to a path that held the unmarked file before returns %r and writes %s bytes; '
+                        'expected (1, %d, %d) and the unmarked file' % (r1, None if stripped is None else len(stripped), nprs + 2, len(without))))
+    except Exception as err:  # noqa
+        bad.append(({'kind': 'strip_tif_raises', 'exc': type(err).__name__, 'by_path': True}, 'de_tif_file(): %s: %s' % (type(err).__name__, err)))
     # a TIF-marked file that was never closed has no end-of-file markers: every record must still come through
     open_end = with_tif[:len(with_tif) - 2 * L.TIF_LEN]
     fout = io.BytesIO()
